@@ -88,6 +88,7 @@ func applyProfile(g *Gen, profile string) {
 		g.PAliases = 70
 		g.UModes = []int{-1, 0, 1, 1, 2}
 	case "complete":
+		g.PSuggested = 45
 		g.PMalformed = 0
 		g.PRequired = 5
 		g.PHelp = 70
